@@ -1,6 +1,7 @@
 (** C23 — data movers copy exactly the requested range.  Property theorems only. *)
 From Akita Require Import Lib.Base C23.Model C23.Exec.
 From Akita Require Import C23.Proofs C23.Proofs2 C23.Proofs3 C23.Proofs4 C23.Proofs5 C23.Proofs6 C23.Proofs7 C23.Proofs8.
+From Akita Require Import C23.Mem C23.Proofs9 C23.Proofs10 C23.Proofs11 C23.Proofs12 C23.Proofs13 C23.Proofs14 C23.Proofs15 C23.Proofs16 C23.Proofs17 C23.Proofs18.
 Local Open Scope N_scope.
 
 (** The full statement is false of the code when ByteSize is not a multiple of the
@@ -88,19 +89,14 @@ Proof.
 Qed.
 Print Assumptions c23_nothing_else_written.
 
-(** c23_copy_exact — PARTIAL.  Full statement (not proved): under the hypotheses above plus
-    BufferSize >= both granularities and memories that answer every request exactly once with
-    their current content, when a move is acknowledged the destination range holds the bytes
-    the source range held when the move was requested.
-    Proved here: in every reachable state of such a script the transfer in progress satisfies
-    the structural invariant [sinv] (reads and writes advance in whole granules, never pass the
-    end of the range, writes never pass reads, every valid chunk lies below the read cursor,
-    every outstanding read has a free slot at or above the buffer offset), and an acknowledgment
-    is only sent when the write cursor has reached exactly the end of the destination range and
-    no read or write is outstanding.  Missing: the data carried by the chunks (the content half
-    of the statement is established by the exact tie only: final memory images are compared on
-    every run). *)
-Theorem c23_copy_exact_partial : forall b gi go tc ic oc mi mo script e obs out,
+(** Structure of a transfer (used by c23_copy_exact below): in every reachable state of a
+    script whose sizes are multiples of the granularities the transfer in progress satisfies the
+    structural invariant [sinv] (reads and writes advance in whole granules, never pass the end
+    of the range, writes never pass reads, every valid chunk lies below the read cursor, every
+    outstanding read has a free slot at or above the buffer offset), and an acknowledgment is
+    only sent when the write cursor has reached exactly the end of the destination range and no
+    read or write is outstanding. *)
+Theorem c23_transfer_structure : forall b gi go tc ic oc mi mo script e obs out,
   Forall (fun i => Forall (nice gi go) (i_top i)) script ->
   env_run (mk_env (dm_init b gi go tc ic oc) mi mo [] []) script = (e, obs, out) ->
   let d := e_dm e in
@@ -119,7 +115,55 @@ Proof.
   destruct (d_pread d) as [|x r]; [|discriminate]. destruct (d_pwrite d) as [|y r']; [|discriminate].
   split; [|split; reflexivity]. lia.
 Qed.
-Print Assumptions c23_copy_exact_partial.
+Print Assumptions c23_transfer_structure.
+
+(** Copy exact.  Setting: any script whose instants satisfy [inst_ok]: every move goes from one
+    side to the other, has a ByteSize that is a multiple of both granularities and ranges inside
+    the two memories; the environment hypothesis is explicit in the model of the environment and
+    in [inst_ok]: the two memories answer exactly the requests they were sent (no injected
+    responses), a read with the memory's current content, a write by storing it, each request
+    once, in ANY order and after ANY delay, and nobody but the data mover's own requests changes
+    the memories.  (Buffer sizes smaller than a granularity only prevent the acknowledgment,
+    F-C23-2; the statement is about acknowledged moves.)
+    Take any reachable state [e] (the result of any such script) and any further instant [i]:
+    if that instant sends the acknowledgment of a move [v], then in the resulting state — whose
+    memories are the ones at the tick of the acknowledgment, also recorded in the observation —
+    the destination range of [v] holds exactly the bytes of the source range of [v]. *)
+Theorem c23_copy_exact : forall b gi go tc ic oc mi mo script i e obs out e' ob,
+  Forall (inst_ok gi go (length mi) (length mo)) (script ++ [i]) ->
+  env_run (mk_env (dm_init b gi go tc ic oc) mi mo [] []) script = (e, obs, out) ->
+  env_step e i = Ret (e', ob) ->
+  forall a v, g_acks (e_dm e') = g_acks (e_dm e) ++ [(a, v)] ->
+    mem_read (pick (v_dside v) (e_mem_in e') (e_mem_out e')) (v_daddr v) (v_size v) =
+    mem_read (pick (v_sside v) (e_mem_in e') (e_mem_out e')) (v_saddr v) (v_size v) /\
+    to_snap ob = Some (e_mem_in e', e_mem_out e').
+Proof.
+  intros b gi go tc ic oc mi mo script i e obs out e' ob Hs R St.
+  apply Forall_app in Hs. destruct Hs as [Hs Hi]. inversion Hi as [|? ? Hi' _]; subst.
+  pose proof (env_run_einv gi go _ _ script Hs _ e obs out (einv_init b gi go tc ic oc mi mo) R) as E.
+  destruct (env_step_einv gi go _ _ e i e' ob E Hi' St) as [_ [_ C]]. exact C.
+Qed.
+Print Assumptions c23_copy_exact.
+
+(** ... and these are the bytes the source range held when the move was accepted: while a move
+    [v] is in progress no instant changes the memory of its source side (the data mover sends
+    writes only to the destination side, and no write of an earlier move is still on its way),
+    so the source range at the acknowledgment is the source range at acceptance. *)
+Theorem c23_source_stable : forall b gi go tc ic oc mi mo script i e obs out e' ob,
+  Forall (inst_ok gi go (length mi) (length mo)) (script ++ [i]) ->
+  env_run (mk_env (dm_init b gi go tc ic oc) mi mo [] []) script = (e, obs, out) ->
+  env_step e i = Ret (e', ob) ->
+  d_active (e_dm e) = true ->
+  let v := d_req (e_dm e) in
+  pick (v_sside v) (e_mem_in e') (e_mem_out e') = pick (v_sside v) (e_mem_in e) (e_mem_out e).
+Proof.
+  intros b gi go tc ic oc mi mo script i e obs out e' ob Hs R St Act v.
+  apply Forall_app in Hs. destruct Hs as [Hs Hi]. inversion Hi as [|? ? Hi' _]; subst.
+  pose proof (env_run_einv gi go _ _ script Hs _ e obs out (einv_init b gi go tc ic oc mi mo) R) as E.
+  destruct (env_step_einv gi go _ _ e i e' ob E Hi' St) as [_ [M _]].
+  unfold v. rewrite <- (e_s _ _ _ _ _ E Act). apply (M Act).
+Qed.
+Print Assumptions c23_source_stable.
 
 (** Link to the implementation: when the correspondence check succeeds on a run case, the
     acknowledgments OBSERVED on the real data mover's Top port (ro_ticks c) are, in order, the
@@ -153,6 +197,15 @@ Definition demo_moves : list move := [mk_move 7 2 16 32 64 0 1; mk_move 9 1 64 0
 Definition demo_run : env * list tick_obs * N :=
   env_run (mk_env (dm_init 64 16 32 2 3 3) (pat 128 1) (pat 128 101) [] [])
           (mk_instant demo_moves [] [] [] [] 0 1 1 :: repeat lifo 60).
+
+Example c23_nonvacuous_inst_ok :
+  Forall (inst_ok 16 32 128 128) (mk_instant demo_moves [] [] [] [] 0 1 1 :: repeat lifo 60).
+Proof.
+  constructor.
+  - unfold inst_ok, demo_moves. cbn [i_top i_stray_in i_stray_out]. repeat split;
+      repeat (constructor; [unfold nice, gmove, pick; cbn; repeat split; try lia; discriminate|]); constructor.
+  - apply Forall_forall. intros x Hx. apply repeat_spec in Hx. subst x. unfold inst_ok, lifo. cbn. repeat split; constructor.
+Qed.
 
 Example c23_nonvacuous :
   Forall (nice 16 32) demo_moves /\
